@@ -171,6 +171,25 @@ def enrich(draw, d, cfg):
         noisy += 1
     d.setdefault("tags", {})["case_noise"] = noisy
     d["tags"]["extra_types"] = [t["name"] for t in added]
+    # identifiers as long as the longest of the shipped schemas (74 characters) and beyond: the scanner formats its file lists in
+    # fixed-width columns and both programs build file names in fixed buffers
+    longn = 0
+    if draw(st.integers(0, 99)) < cfg.get("p_long_names", 12):
+        pool = [x["name"] for x in d["types"] + d["entities"]]
+        k = min(len(pool), draw(st.integers(1, 3)))
+        mapping = {}
+        for nm in draw(st.permutations(pool))[:k]:
+            ln = draw(st.sampled_from([60, 74, 80, 84, 86, 88, 90, 100, 101, 120, 160]))
+            base = nm.lower()
+            new = (base + "_" + "long_identifier_part_" * 10)[:ln].rstrip("_")
+            if len(new) > len(base) and new not in used and new not in mapping.values():
+                mapping[base] = new
+                used.add(new)
+        if mapping:
+            rename_identifiers(d, lambda n: mapping.get(n, n))
+            d["tags"]["extra_types"] = [mapping.get(n.lower(), n) for n in d["tags"]["extra_types"]]
+            longn = len(mapping)
+    d["tags"]["long_names"] = longn
     return d
 
 
@@ -464,9 +483,19 @@ def decorate_bounds(draw, d, cfg):
 
     def const(value):
         n = _fresh(draw, used, [], "cmax")
-        if consts and draw(st.integers(0, 9)) < 3:
+        sel = draw(st.integers(0, 19))
+        if consts and sel < 5:
             base = draw(st.sampled_from(consts))[0]
             consts.append((n, "%s + %d" % (base, draw(st.integers(0, 3)))))
+            kinds.add("bound:constant-defined-by-expression")
+        elif consts and sel < 7:
+            consts.append((n, draw(st.sampled_from(consts))[0]))          # an alias of another constant
+            kinds.add("bound:constant-alias")
+        elif sel < 10:
+            consts.append((n, "?"))                                        # the indeterminate value: an open upper bound
+            kinds.add("bound:constant-indeterminate")
+        elif sel < 12:
+            consts.append((n, draw(st.sampled_from(["-(-%d)" % value, "%d * 1" % value, "(%d)" % value, "%d DIV 1" % value]))))
             kinds.add("bound:constant-defined-by-expression")
         else:
             consts.append((n, str(value)))
